@@ -163,6 +163,8 @@ pub struct Scene {
     /// of the scenes
     pub view2: Matrix3<f32>,
     pub view3: Matrix4<f32>,
+    /// 2D: every pixel carries its value (interval fills are not used)
+    pub pixel_perfect: bool,
 }
 
 /// Canonical result: a vector of words that is equal iff the results are
@@ -202,7 +204,7 @@ pub fn run_scene<F: Function + MathFunction + RenderHints + Clone>(
             let cfg = fidget_raster::pixel::RenderConfig {
                 image_size: ImageSize::new(sc.w, sc.h),
                 world_to_model: sc.view2,
-                pixel_perfect: false,
+                pixel_perfect: sc.pixel_perfect,
                 z: 0.1,
             };
             let ec = fidget_raster::pixel::EvalConfig {
@@ -309,6 +311,13 @@ pub fn gen_scene(rng: &mut Rng) -> Scene {
         Kind::Mesh => (0, 0, 0, vec![]),
     };
     let mut prog = prog;
+    if kind != Kind::Mesh && rng.chance(0.2) {
+        // many values live at once and choices that every tile decides
+        // differently (see C06): simplifications that are not shorter than
+        // their parent, caches keyed by the trace - what one worker carries
+        // from tile to tile depends on how the tiles are split into runs
+        prog = crate::props::c06::pressure_scene(rng, kind == Kind::Image3);
+    }
     let mut keep_identity = false;
     if kind == Kind::Image3 && rng.chance(0.3) {
         keep_identity = true;
@@ -382,7 +391,7 @@ pub fn gen_scene(rng: &mut Rng) -> Scene {
     } else {
         crate::props::c07::random_mat4(rng)
     };
-    Scene { kind, prog, w, h, d, tiles, depth: 2 + rng.below(3) as u8, jit: rng.chance(0.5), view2, view3 }
+    Scene { kind, prog, w, h, d, tiles, depth: 2 + rng.below(3) as u8, jit: rng.chance(0.5), view2, view3, pixel_perfect: rng.chance(0.5) }
 }
 
 ////////////////////////////////////////////////////////////////////////////////
@@ -467,7 +476,7 @@ fn check_log(log: &[Event], cancelled_at: u64, uncancelled: bool, expected_units
 fn scene_json(sc: &Scene) -> Value {
     json!({"kind": format!("{:?}", sc.kind), "w": sc.w, "h": sc.h, "d": sc.d, "tiles": sc.tiles, "mesh_depth": sc.depth,
         "backend": if sc.jit { "jit" } else { "vm" }, "shape": sc.prog.to_json(),
-        "view_2d": format!("{:?}", sc.view2), "view_3d": format!("{:?}", sc.view3)})
+        "pixel_perfect": sc.pixel_perfect, "view_2d": format!("{:?}", sc.view2), "view_3d": format!("{:?}", sc.view3)})
 }
 
 fn expected_units(sc: &Scene) -> Option<usize> {
@@ -752,7 +761,7 @@ impl Prop for C09 {
         // an image without pixels is still a render whose token is never
         // set: it returns an (empty) result with or without a pool
         if sc.kind != Kind::Mesh && rng.chance(0.25) {
-            let mut e = Scene { kind: sc.kind, prog: sc.prog.clone(), w: sc.w, h: sc.h, d: sc.d, tiles: sc.tiles.clone(), depth: sc.depth, jit: sc.jit, view2: sc.view2, view3: sc.view3 };
+            let mut e = Scene { kind: sc.kind, prog: sc.prog.clone(), w: sc.w, h: sc.h, d: sc.d, tiles: sc.tiles.clone(), depth: sc.depth, jit: sc.jit, view2: sc.view2, view3: sc.view3, pixel_perfect: sc.pixel_perfect };
             match rng.below(3) {
                 0 => e.w = 0,
                 1 => e.h = 0,
